@@ -64,6 +64,12 @@ func runC19(c *vf.Ctx) {
 		c.Count("shared-caller-objects:systematic-histories")
 	}
 
+	// the io.Reader contract: short reads, n>0 with io.EOF, an error after k bytes
+	for _, cs := range c19ContractCases(c, probe) {
+		runs = append(runs, c19RunImpl(cs))
+		c.Count("reader-contract:" + cs.Rd.name())
+	}
+
 	histories := c.Budget(1200, 6000)
 	maxOps := c.Budget(200, 600)
 	if os.Getenv("VERIF_SEARCH") == "1" {
@@ -624,4 +630,100 @@ func c19SharedInstance(c *vf.Ctx, d *vf.Driver) {
 		}
 		c.TraceValidated()
 	}
+}
+
+// c19AllGenerators: one history that runs every place where goat draws: GenerateCEK/GenerateIV of
+// all six content encryption algorithms, the A*GCMKW iv, the PBES2 salt, the ECDH-ES+A*KW CEK,
+// NewMessage / NewMessageWithKW / Encrypt end to end.  (goat draws no ECDH-ES ephemeral key: the
+// sender takes it from the header.)
+func c19AllGenerators(probe c19Probe) []c19Op {
+	var ops []c19Op
+	for i, e := range c19GcmEncs {
+		ops = append(ops, c19Op{T: "newGcm", Enc: e}, c19Op{T: "gcmCEK", I: i}, c19Op{T: "gcmIV", I: i}, c19Op{T: "gcmIV", I: i})
+	}
+	for _, e := range c19CbcEncs {
+		ops = append(ops, c19Op{T: "cbcCEK", Enc: e}, c19Op{T: "cbcIV", Enc: e})
+	}
+	for _, kl := range []int{16, 24, 32} {
+		ops = append(ops, c19Op{T: "wrapKey", KW: "gcmkw", KeyLen: kl, CekLen: 32},
+			c19Op{T: "wrapKey", KW: "pbes2", KeyLen: kl, CekLen: 32, P2C: 2},
+			c19Op{T: "wrapKey", KW: "akw", KeyLen: kl, CekLen: 32})
+		if !probe.SkipECDH {
+			ops = append(ops, c19Op{T: "deriveKey", KW: "ecdhKW", KeyLen: kl, Enc: c19Encs[kl/8-2]},
+				c19Op{T: "deriveKey", KW: "ecdhKW", KeyLen: kl, Enc: c19Encs[kl/8+1]})
+		}
+	}
+	if !probe.SkipECDH {
+		ops = append(ops, c19Op{T: "deriveKey", KW: "ecdhDirect", KeyLen: 16, Enc: "A256GCM"})
+	}
+	n := 0
+	for i, e := range c19Encs {
+		kl := []int{16, 24, 32}[i%3]
+		ck, _ := c19RefSizes(e)
+		ops = append(ops, c19Op{T: "newMessage", Enc: e},
+			c19Op{T: "newMessageKW", Enc: e, KW: "akw", KeyLen: kl},
+			c19Op{T: "newMessageKW", Enc: e, KW: "gcmkw", KeyLen: kl},
+			c19Op{T: "newMessageKW", Enc: e, KW: "pbes2", KeyLen: kl, P2C: 3})
+		if !probe.SkipDir {
+			ops = append(ops, c19Op{T: "newMessageKW", Enc: e, KW: "dir", KeyLen: ck})
+		}
+		ops = append(ops, c19Op{T: "encrypt", I: n, KW: "gcmkw", KeyLen: kl}, c19Op{T: "encrypt", I: n, KW: "pbes2", KeyLen: kl, P2C: 2})
+		n += 4
+		if !probe.SkipDir {
+			n++
+		}
+	}
+	return ops
+}
+
+// c19ContractCases: histories run against readers that exercise the io.Reader contract.  The
+// Lean model's `draw` consumes exactly n bytes; "the Go code fills its whole buffer from the reader
+// whatever the chunking, and returns the reader's error" is what these runs tie: every octet of
+// every issued value must come from the stream (per-call consumption = the model's; values equal
+// the model's, no undrawn zero tail), and a call during which a Read failed must fail.
+func c19ContractCases(c *vf.Ctx, probe c19Probe) []c19Case {
+	r := c.R.Fork()
+	all := c19AllGenerators(probe)
+	var out []c19Case
+	modes := []c19RdMode{{Chunk: 1}, {Chunk: 7}, {Chunk: 8}, {Chunk: 16}, {Chunk: 31}, {RandSeed: 1}, {FullEOF: true}}
+	for _, m := range modes {
+		if m.RandSeed != 0 {
+			m.RandSeed = r.U64() | 1
+		}
+		out = append(out, c19Case{Seed: r.U64(), Rd: m, Ops: all})
+		for i := 0; i < c.Budget(25, 150); i++ {
+			cs := c19GenCase(r, probe, 60, 0)
+			cs.Rd = m
+			if m.RandSeed != 0 {
+				cs.Rd.RandSeed = r.U64() | 1
+			}
+			out = append(out, cs)
+		}
+	}
+	// an error after k bytes: k around every draw boundary of the all-generators history
+	seed := r.U64()
+	probeRun := c19RunImpl(c19Case{Seed: seed, Ops: all})
+	var ks []int64
+	for _, o := range probeRun.obs {
+		for _, rd := range o.Reads {
+			ks = append(ks, int64(rd.Pos), int64(rd.Pos)+1, int64(rd.Pos+rd.N)-1)
+		}
+	}
+	step := 1
+	if c.Quick() && len(ks) > 160 {
+		step = len(ks)/160 + 1
+	}
+	for i := r.Intn(step); i < len(ks); i += step {
+		out = append(out, c19Case{Seed: seed, Rd: c19RdMode{HasLimit: true, Limit: ks[i], ErrWithN: i%2 == 0}, Ops: all})
+	}
+	for i := 0; i < c.Budget(40, 300); i++ {
+		cs := c19GenCase(r, probe, 60, 0)
+		cs.Rd = c19RdMode{HasLimit: true, Limit: int64(r.Intn(1500)), ErrWithN: r.Bool()}
+		// also short reads before the error
+		if r.Intn(2) == 0 {
+			cs.Rd.Chunk = vf.Pick(r, []int{1, 7, 8, 16, 31})
+		}
+		out = append(out, cs)
+	}
+	return out
 }
